@@ -674,3 +674,277 @@ def err4(ctx):
                 per += 1
     r.analysed = {"end_reads": n}
     return r
+
+
+# ---------------------------------------------------------------- ERR-5: the formatters cannot panic on their payload
+
+OPT_PANIC = ("core::option::Option::expect", "core::option::Option::unwrap", "core::result::Result::unwrap", "core::result::Result::expect")
+KEEPS_NONEMPTY = {"iter", "into_iter", "copied", "cloned", "map", "enumerate", "rev", "inspect", "by_ref", "peekable", "chain"}
+PICKS_ONE = {"min_by_key", "max_by_key", "min_by", "max_by", "min", "max", "next", "last", "first", "next_back"}
+
+# constructor sites whose payload cannot be proven non-empty from the function alone: (function, variant, payload root) -> reason
+ERR5_PAYLOAD_EXCEPTIONS = {
+    ("asca::rule::Rule::split_into_subrules", "UnbalancedRuleIO", "self.input"):
+        "Rule.input is Parser::get_input's result, which returns EmptyInput for an empty list; PAN-10 decides that no term of it is empty",
+    ("asca::rule::Rule::split_into_subrules", "UnbalancedRuleIO", "self.output"):
+        "Rule.output is Parser::get_output's result, which returns EmptyOutput for an empty list; PAN-10 decides that no term of it is empty",
+}
+
+
+def _canon(e):
+    """a printable name for a place expression: self.context, input_terms, x.y"""
+    e = hirq.strip(e)
+    if not isinstance(e, dict):
+        return None
+    if e.get("e") == "path" and "local" in e:
+        return e["local"]
+    if e.get("e") == "field":
+        a = _canon(e["a"])
+        return None if a is None else "%s.%s" % (a, e["name"])
+    if e.get("e") == "unary" and e.get("op") == "Deref":
+        return _canon(e["a"])
+    if e.get("e") == "mcall" and e["name"] in ("clone", "to_vec", "to_owned", "as_slice", "as_ref", "borrow") and not e.get("args"):
+        return _canon(e["recv"])
+    return None
+
+
+def _split(e, op):
+    e = hirq.strip(e)
+    if isinstance(e, dict) and e.get("e") == "binary" and e.get("op") == op:
+        return _split(e["a"], op) + _split(e["b"], op)
+    return [e]
+
+
+def _nonempty_atom(e, truth):
+    """root name R when (e == truth) implies R is non-empty"""
+    e = hirq.strip(e)
+    if not isinstance(e, dict):
+        return None
+    if e.get("e") == "unary" and e.get("op") == "Not":
+        return _nonempty_atom(e["a"], not truth)
+    if e.get("e") == "mcall" and e["name"] == "is_empty" and not e.get("args"):
+        return _canon(e["recv"]) if truth is False else None
+    if e.get("e") == "binary" and e.get("op") in ("Gt", "Ne", "Ge", "Eq", "Lt", "Le"):
+        a, b = hirq.strip(e["a"]), hirq.strip(e["b"])
+        if a.get("e") == "mcall" and a["name"] == "len" and b.get("e") == "lit" and isinstance(b.get("lit"), int):
+            n, op = b["lit"], e["op"]
+            holds = {"Gt": n >= 0, "Ne": n == 0, "Ge": n >= 1}.get(op, False) if truth else {"Eq": n == 0, "Lt": n <= 1 and n >= 1, "Le": n == 0}.get(op, False)
+            return _canon(a["recv"]) if holds else None
+    return None
+
+
+def _facts_of(cond, pol):
+    out = set()
+    if pol:
+        for c in _split(cond, "And"):
+            x = _nonempty_atom(c, True)
+            if x:
+                out.add(x)
+    else:
+        for c in _split(cond, "Or"):
+            x = _nonempty_atom(c, False)
+            if x:
+                out.add(x)
+    return out
+
+
+def _diverges(e):
+    e = hirq.strip(e)
+    if not isinstance(e, dict):
+        return False
+    if e.get("e") in ("ret", "break", "continue"):
+        return True
+    if e.get("e") == "block":
+        items = list(e.get("stmts", [])) + ([e["tail"]] if e.get("tail") is not None else [])
+        return bool(items) and _diverges(items[-1] if "e" in items[-1] else items[-1].get("a", items[-1]))
+    if e.get("e") == "semi" or e.get("s") == "semi":
+        return _diverges(e.get("a"))
+    return hirq.is_panic_expr(e) is not None and e.get("e") == "call"
+
+
+def _ctor_sites(body, variants):
+    """(call node, set of roots known non-empty at that point) for every constructor call of one of `variants`"""
+    out = []
+
+    def rec(x, known):
+        if isinstance(x, list):
+            for y in x:
+                rec(y, known)
+            return
+        if not isinstance(x, dict):
+            return
+        k = x.get("e")
+        if k == "if":
+            rec(x["cond"], known)
+            rec(x.get("then"), known | _facts_of(x["cond"], True))
+            if x.get("else") is not None:
+                rec(x["else"], known | _facts_of(x["cond"], False))
+            return
+        if k == "block":
+            cur = set(known)
+            for s in x.get("stmts", []):
+                rec(s, cur)
+                inner = s.get("a") if isinstance(s, dict) and s.get("e") in ("semi",) else s
+                inner = hirq.strip(inner) if isinstance(inner, dict) else inner
+                if isinstance(inner, dict) and inner.get("e") == "if" and inner.get("else") is None and _diverges(inner.get("then")):
+                    cur = cur | _facts_of(inner["cond"], False)
+            if x.get("tail") is not None:
+                rec(x["tail"], cur)
+            return
+        if k == "call":
+            f = hirq.strip(x["f"])
+            if f.get("e") == "path" and f.get("path") in variants:
+                out.append((x, frozenset(known)))
+        for kk, v in x.items():
+            if isinstance(v, (dict, list)):
+                rec(v, known)
+
+    rec(body.hir["body"], frozenset())
+    return out
+
+
+def _producer_guarantees_nonempty(unit, body, name):
+    """`let name = self.f()?` where f ends in `Ok(v)` after `if v.is_empty() { return Err(..) }`"""
+    for n in hirq.walk(body.hir["body"]):
+        if n.get("e") != "block":
+            continue
+        for s in n.get("stmts", []):
+            if s.get("e") == "let" and (s.get("pat") or {}).get("p") == "bind" and s["pat"].get("name") == name and s.get("init") is not None:
+                callee = None
+                for c in hirq.walk(s["init"]):
+                    if c["e"] == "mcall" and (c.get("def") or "").startswith("asca::"):
+                        callee = c["def"]
+                        break
+                    if c["e"] == "call" and (hirq.strip(c["f"]).get("path") or "").startswith("asca::") and hirq.strip(c["f"]).get("rk", "").startswith(("Fn", "AssocFn")):
+                        callee = hirq.strip(c["f"])["path"]
+                        break
+                f = unit.body(callee) if callee else None
+                if f is None or not f.hir:
+                    return None
+                root = f.hir["body"]
+                root = hirq.strip(root) if root.get("e") != "block" else root
+                tail = hirq.strip(root.get("tail")) if isinstance(root, dict) and root.get("tail") is not None else None
+                if not (isinstance(tail, dict) and tail.get("e") == "call" and (hirq.strip(tail["f"]).get("path") or "").endswith("Result::Ok") and tail["args"]):
+                    return None
+                v = _canon(tail["args"][0])
+                known = set()
+                for st in root.get("stmts", []):
+                    inner = st.get("a") if st.get("e") == "semi" else st
+                    inner = hirq.strip(inner) if isinstance(inner, dict) else inner
+                    if isinstance(inner, dict) and inner.get("e") == "if" and inner.get("else") is None and _diverges(inner.get("then")):
+                        known |= _facts_of(inner["cond"], False)
+                return callee if v and v in known else None
+    return None
+
+
+def err5(ctx):
+    """An error that cannot be *shown* is as bad as no error. Every `expect`/`unwrap` reachable from an error formatter is
+    (a) first()/last() of a payload vector -- then every constructor site of that variant must pass a vector known to be
+    non-empty there -- or (b) a pick from a constant, unfiltered, non-empty table."""
+    r = RuleResult("ERR-5", "every expect/unwrap reachable from an error formatter is discharged: first()/last() of a variant's payload whose every constructor site passes a vector tested non-empty (or one returned by a producer that rejects the empty list), or a min/max/next over a constant non-empty table without a filter", floor=12)
+    lib = ctx.lib
+    roots = [b.path for b in lib.bodies if b.impl_trait == TRAIT and b.kind == "assoc_fn" and not is_stub(b)]
+    if len(roots) < 12:
+        raise AnchorMissing("ERR-5: %d non-stub ASCAError formatter bodies (expected >= 12)" % len(roots))
+    reach = sorted(p for p in lib.reachable(roots) if lib.body(p) is not None and lib.body(p).hir and not lib.body(p).in_test_mod() and p.startswith(("asca::", "<asca::")))
+    needs = {}           # (variant path, field) -> (depth, loc, fn)
+    n_sites = 0
+    for p in reach:
+        b = lib.body(p)
+        payload = {}
+        for pt in hirq.walk_pats(b.hir["body"]):
+            if pt.get("p") == "ts" and any((pt.get("path") or "").startswith(e + "::") for e in LEAF_ENUMS):
+                for i, sub in enumerate(pt.get("pats") or []):
+                    if isinstance(sub, dict) and sub.get("p") == "bind":
+                        payload[sub.get("hid")] = (pt["path"], i)
+        k = 0
+        for n in hirq.walk(b.hir["body"]):
+            if n["e"] != "mcall" or n.get("def") not in OPT_PANIC:
+                continue
+            n_sites += 1
+            loc = fn_loc(b, n["ln"])
+            verdict, why = _classify_unwrap(n, payload)
+            if verdict == "payload":
+                var, idx, depth = why
+                needs.setdefault((var, idx), []).append((depth, loc, b.path))
+                r.inst("%s: %s() #%d reads first()/last() of the payload of %s (field %d%s)" % (short_fn(b.path), n["name"], k, var.rsplit("::", 1)[-1], idx, ", nested" if depth else ""), loc, "ok")
+            elif verdict == "table":
+                r.inst("%s: %s() #%d picks from the constant table %s (%s entries, no filter)" % (short_fn(b.path), n["name"], k, why[0], why[1]), loc, "ok")
+            else:
+                r.inst("%s: %s() #%d is not discharged" % (short_fn(b.path), n["name"], k), loc, "report")
+                r.report("ERR-5|%s|%s#%d|%s" % (short_fn(b.path), n["name"], k, why), loc, b.path,
+                         "`%s()` reachable from an error formatter on a value that is not provably present (%s): showing the error can panic although the run returned a proper Err" % (n["name"], why))
+            k += 1
+    # constructor sites of the variants whose payload the formatters read
+    variants = {v for (v, _i) in needs}
+    n_ctor = 0
+    for b in lib.bodies:
+        if b.in_test_mod() or not b.hir or b.exp:
+            continue
+        if not any(n.get("path") in variants for n in hirq.paths_in(b.hir["body"])):
+            continue
+        for call, known in _ctor_sites(b, variants):
+            var = hirq.strip(call["f"])["path"]
+            for (v, idx), reqs in sorted(needs.items()):
+                if v != var or idx >= len(call["args"]):
+                    continue
+                n_ctor += 1
+                arg = call["args"][idx]
+                root = _canon(arg)
+                loc = fn_loc(b, call["ln"])
+                vshort = var.rsplit("::", 1)[-1]
+                nested = any(d for d, _l, _f in reqs)
+                how = None
+                if root and root in known:
+                    how = "tested non-empty on this path"
+                elif root and "." not in root:
+                    prod = _producer_guarantees_nonempty(lib, b, root)
+                    if prod:
+                        how = "returned by %s, which rejects the empty list" % prod.rsplit("::", 1)[-1]
+                exc = ERR5_PAYLOAD_EXCEPTIONS.get((b.path, vshort, root))
+                if (how is None or nested) and exc:
+                    how = "exception: " + exc
+                    r.exceptions.append("ERR-5 %s %s(%s): %s" % (b.path, vshort, root, exc))
+                elif nested and how is not None:
+                    # the inner vectors must be non-empty too: only PAN-10's producers are known to guarantee that
+                    how = None
+                ok = how is not None
+                r.inst("%s: %s(%s) — payload %s" % (b.path, vshort, root or "<expression>", how or "not known to be non-empty here"), loc, "ok" if ok else "report")
+                if not ok:
+                    r.report("ERR-5|ctor|%s|%s|%s" % (b.path, vshort, root or "expr"), loc, b.path,
+                             "%s is built from `%s`, which is not tested non-empty on this path (known non-empty here: %s): the formatter does `.first().expect(..)` on it (%s) and panics instead of showing the error"
+                             % (vshort, root or "an expression", ", ".join(sorted(known)) or "nothing", reqs[0][1]))
+    r.analysed = {"formatter_bodies": len(roots), "reachable_bodies": len(reach), "unwrap_sites": n_sites, "payload_variants": len(variants), "constructor_sites": n_ctor}
+    if n_sites < 6 or n_ctor < 6:
+        raise AnchorMissing("ERR-5: %d unwrap sites / %d constructor sites (expected >= 6 / 6)" % (n_sites, n_ctor))
+    return r
+
+
+def short_fn(p):
+    m = re.match(r"<asca::error::\w+::(\w+) as asca::error::ASCAError>::(\w+)", p)
+    return "%s::%s" % (m.group(1), m.group(2)) if m else p
+
+
+def _classify_unwrap(n, payload):
+    R = hirq.strip(n["recv"])
+    if R.get("e") == "mcall" and R["name"] in ("first", "last") and "slice" in (R.get("def") or ""):
+        E = hirq.strip(R["recv"])
+        if E.get("e") == "path" and E.get("hid") in payload:
+            return "payload", payload[E["hid"]] + (0,)
+        if E.get("e") == "mcall" and E.get("def") in OPT_PANIC:
+            v, why = _classify_unwrap(E, payload)
+            if v == "payload":
+                return "payload", (why[0], why[1], why[2] + 1)
+        return "other", "first()/last() of something that is not a variant payload"
+    # iterator chain over a constant table
+    x, saw_pick, names = R, False, []
+    while isinstance(x, dict) and x.get("e") == "mcall":
+        names.append(x["name"])
+        x = hirq.strip(x["recv"])
+    if isinstance(x, dict) and x.get("e") == "path" and (x.get("rk") or "").startswith(("Const", "Static")):
+        m = re.match(r"\[.*; (\d+)\]$", x.get("ty") or "")
+        if m and int(m.group(1)) > 0 and names and names[0] in PICKS_ONE and all(nm in KEEPS_NONEMPTY for nm in names[1:]):
+            return "table", (x["path"].rsplit("::", 1)[-1], m.group(1))
+        bad = [nm for nm in names[1:] if nm not in KEEPS_NONEMPTY]
+        return "other", "the table is narrowed by %s before the pick" % "/".join(bad) if bad else "unrecognised chain over a constant table"
+    return "other", "receiver is neither a payload's first()/last() nor a pick from a constant table"
